@@ -134,38 +134,53 @@ Definition quoted_b (after_eq : str) : outcome (option str) :=
       end
   end.
 
-(* parse_rename_all, up to the quoted value that goes to RenameRule::from_rename_all_str *)
-Definition rename_all_b (tokens : str) : outcome (option str) :=
-  match find (L "rename_all") tokens with
-  | None => Ok None
-  | Some st =>
-      do t1 <- slice_from tokens st;
-      match find_char "=" t1 with
-      | None => Ok None
-      | Some e => do a <- slice_from tokens (st + e + 1); quoted_b (trim_start a)
-      end
-  end.
-
-(* parse_rename: the while-let loop; repaired restart offset tokens.len() - trimmed.len() + 4 *)
-Fixpoint rename_go (fuel : nat) (tokens : str) (search_start : nat) : outcome (option str) :=
+(* find_key (repair C06-8-9): `key` used as a whole attribute key - not preceded by an ASCII identifier
+   character, followed after spaces by `=` or `(`; returns the text starting at that `=` / `(`.
+   The slices: text[from..] (from = end of the previous occurrence), text[..at], text[from..] again *)
+Definition ident_byte (b : ascii) : bool :=
+  let n := byte_n b in
+  ((48 <=? n)%N && (n <=? 57)%N) || ((65 <=? n)%N && (n <=? 90)%N) || ((97 <=? n)%N && (n <=? 122)%N) || Ascii.eqb b "_".
+Fixpoint trim_spaces (s : str) : str := match s with b :: r => if Ascii.eqb b " " then trim_spaces r else s | [] => [] end.
+Fixpoint find_key_go (fuel : nat) (text key : str) (from : nat) : outcome (option str) :=
   match fuel with
   | 0 => OutOfFuel
   | S f =>
-      do t <- slice_from tokens search_start;
-      match find (L "rename") t with
+      do t <- slice_from text from;
+      match find key t with
       | None => Ok None
       | Some pos =>
-          let abs_pos := search_start + pos in
-          do after_rename <- slice_from tokens (abs_pos + 6);
-          let trimmed := trim_start after_rename in
-          if starts (L "_all") trimmed then rename_go f tokens (List.length tokens - List.length trimmed + 4)
-          else match find_char "=" after_rename with
-               | None => Ok None
-               | Some e => do a <- slice_from after_rename (e + 1); quoted_b (trim_start a)
-               end
+          let at_ := from + pos in
+          let from' := at_ + List.length key in
+          do before <- slice_to text at_;
+          if (match rev before with b :: _ => ident_byte b | [] => false end) then find_key_go f text key from'
+          else
+            do after <- slice_from text from';
+            let rest := trim_spaces after in
+            if starts (L "=") rest || starts (L "(") rest then Ok (Some rest) else find_key_go f text key from'
       end
   end.
-Definition rename_b (tokens : str) : outcome (option str) := rename_go (S (List.length tokens)) tokens 0.
+Definition find_key_b (text key : str) : outcome (option str) := find_key_go (S (List.length text)) text key 0.
+
+(* written_value: key = "v", or the serialize entry of key(serialize = "v", deserialize = "w") cut at the first `)` *)
+Definition written_value_b (tokens key : str) : outcome (option str) :=
+  do r <- find_key_b tokens key;
+  match r with
+  | None => Ok None
+  | Some rest =>
+      match strip_prefix (L "(") rest with
+      | Some group =>
+          do g <- slice_to group (match find_char ")" group with Some i => i | None => List.length group end);
+          do s <- find_key_b g (L "serialize");
+          match s with
+          | Some r2 => match strip_prefix (L "=") r2 with Some t => quoted_b t | None => Ok None end
+          | None => Ok None
+          end
+      | None => match strip_prefix (L "=") rest with Some t => quoted_b t | None => Ok None end
+      end
+  end.
+(* parse_rename_all up to the value that goes to RenameRule::from_rename_all_str, and parse_rename *)
+Definition rename_all_b (tokens : str) : outcome (option str) := written_value_b tokens (L "rename_all").
+Definition rename_b (tokens : str) : outcome (option str) := written_value_b tokens (L "rename").
 
 Definition skip_b (tokens : str) : bool := contains (L "skip") tokens && negb (contains (L "skip_serializing") tokens).
 
